@@ -313,6 +313,14 @@ class EngineBase:
                 fields.append((fn, v))
                 invs += inv
             return st, Rec(sort.arg, tuple(fields)), invs
+        if k == "ntup":
+            items = []
+            invs = []
+            for i, s in enumerate(sort.arg2):
+                st, v, inv = self.make(st, s, f"{name}[{i}]")
+                items.append(v)
+                invs += inv
+            return st, Tup(tuple(items), self.tree.get_class(sort.arg)), invs
         if k == "tup":
             items = []
             invs = []
@@ -482,7 +490,11 @@ class EngineBase:
     def eval_clause_dict(self, fn: Any, env: Env) -> dict[str, Any]:
         if fn is None:
             return {}
-        r = fn(env)
+        try:
+            r = fn(env)
+        except (z3.Z3Exception, TypeError, AttributeError, IndexError) as ex:
+            # the state has values of another kind than the clause talks about (e.g. a message where a term is expected)
+            raise ClauseError(f"ill-typed for this state: {type(ex).__name__}: {str(ex)[:120]}") from ex
         if r is None:
             return {}
         if isinstance(r, dict):
